@@ -262,7 +262,7 @@ def run(ctx):
                 ctx.first_desc.setdefault(f.key, f.desc)
             else:
                 ctx.violations[f.key] = (f.desc, f.replay)
-    total = 16000 if ctx.thorough else 640
+    total = 8000 if ctx.thorough else 640
     infra = core.hypothesis_search(ctx, "pyv.c04", total)
     rc = ctx.finish(RULE, False, [
         "B is deterministic, terminating and side-effect free (except the marker); results the checker refuses (pointers, functions) are not generated",
